@@ -70,7 +70,7 @@ Print Assumptions C15_portal_cell_stable.
 
 (* ---- 3. cancelling a returned future cancels precisely that task ---- *)
 Theorem C15_portal_future_cancel_cancels_that_task_only : forall f4 fc s, reach f4 fc s ->
-  (forall k o, o = FutureCancel k \/ o = CancelLand k ->
+  (forall k o, o = FutureCancel k \/ o = CancelLand k \/ o = FutureCancelLoop k ->
      (forall j, j <> k -> calls (fst (step s o)) j = calls s j) /\
      group_cancelled (fst (step s o)) = group_cancelled s) /\
   (forall k, c_scope_cancelled (calls s k) = true -> c_fut (calls s k) = CCancelled) /\
@@ -79,7 +79,7 @@ Theorem C15_portal_future_cancel_cancels_that_task_only : forall f4 fc s, reach 
 Proof. exact portal_future_cancel_cancels_that_task_only. Qed.
 Print Assumptions C15_portal_future_cancel_cancels_that_task_only.
 
-Theorem C15_portal_future_cancel_frame : forall s k o, o = FutureCancel k \/ o = CancelLand k ->
+Theorem C15_portal_future_cancel_frame : forall s k o, o = FutureCancel k \/ o = CancelLand k \/ o = FutureCancelLoop k ->
   let s' := fst (step s o) in
   (forall j, j <> k -> calls s' j = calls s j) /\ group_cancelled s' = group_cancelled s /\
   members s' = members s /\ host s' = host s /\ woken s' = woken s /\ running s' = running s.
@@ -307,3 +307,22 @@ Theorem C15_portal_start_task_failure_propagated : forall f4 fc s k, reach f4 fc
      c_fut (calls s k) = CExc e /\ c_status (calls s k) = CExc e).
 Proof. exact portal_start_task_failure_propagated. Qed.
 Print Assumptions C15_portal_start_task_failure_propagated.
+
+(* ---- 9. a cancelled future always reaches its task, whichever thread cancelled it (seeded change C15_g) ---- *)
+Theorem C15_portal_cancelled_future_reaches_scope : forall f4 s k, reach f4 true s ->
+  c_phase (calls s k) = PRunning -> c_kind (calls s k) <> KSync -> c_fut (calls s k) = CCancelled ->
+  c_scope_cancelled (calls s k) = true \/ c_inflight (calls s k) = true.
+Proof. exact portal_cancelled_future_reaches_scope. Qed.
+Print Assumptions C15_portal_cancelled_future_reaches_scope.
+
+Theorem C15_portal_loop_thread_cancel_cancels_scope : forall f4 s k, reach f4 true s ->
+  c_phase (calls s k) = PRunning -> c_kind (calls s k) <> KSync -> c_fut (calls s k) = CPending ->
+  handed_out (calls s k) = true -> loop_ended s = false ->
+  let s1 := fst (step s (FutureCancelLoop k)) in
+  snd (step s (FutureCancelLoop k)) = RCancelTrue /\ c_fut (calls s1 k) = CCancelled /\
+  c_scope_cancelled (calls s1 k) = true /\ c_inflight (calls s1 k) = c_inflight (calls s k) /\
+  c_phase (calls s1 k) = PRunning /\
+  snd (step s1 (TaskStep k WInterrupt None FReraise)) = RStepped /\
+  (forall j, j <> k -> calls s1 j = calls s j) /\ group_cancelled s1 = group_cancelled s.
+Proof. exact portal_loop_thread_cancel_cancels_scope. Qed.
+Print Assumptions C15_portal_loop_thread_cancel_cancels_scope.
